@@ -73,6 +73,16 @@ def rule_keep(ctx):
     s = q.stmt(apps[0])
     conds = pr.control_conditions(s, f.node)
     ok, why = False, f'guards: {[norm(c[0]) for c in conds]}'
+    # `not a < b` / a guard passed on the false side read as the comparison they are
+    if len(conds) == 1:
+        t0, pol0 = conds[0][0], conds[0][1]
+        while isinstance(t0, ast.UnaryOp) and isinstance(t0.op, ast.Not):
+            t0, pol0 = t0.operand, not pol0
+        flip = {ast.Lt: ast.GtE, ast.GtE: ast.Lt, ast.Gt: ast.LtE, ast.LtE: ast.Gt}
+        if not pol0 and isinstance(t0, ast.Compare) and len(t0.ops) == 1 and type(t0.ops[0]) in flip:
+            t0 = ast.copy_location(ast.Compare(left=t0.left, ops=[flip[type(t0.ops[0])]()], comparators=t0.comparators), t0)
+            pol0 = True
+        conds = [(t0, pol0, conds[0][2])]
     if len(conds) == 1 and conds[0][1] and isinstance(conds[0][0], ast.Compare) and len(conds[0][0].ops) == 1:
         t = conds[0][0]
         sides = [t.left, t.comparators[0]]
